@@ -13,4 +13,12 @@ CHECKS = {
   note=("Trusted: Lean kernel (+propext/Quot.sound/Classical.choice), harness/extract.py, the correspondence harness, CPython str.replace/"
         "urllib.quote/unquote as modelled in LiquerModel/Text.lean (validated differentially, not proved), pyparsing for the embedding oracle."),
  ),
+ "C19": dict(
+  text=("Full proof: toAbsolute_eq_posix (for every plain directory and every path of any length the model of _query_to_absolute equals "
+        "POSIX normalisation with root-escape rejected), idempotence, and the frame theorems of Query.to_absolute. The model is tied to the "
+        "code by exhaustive comparison over all directories of depth 0-4 x all paths of <= 5/6 components and generated query embeddings; "
+        "the oracle is posixpath.normpath."),
+  note=("Trusted: Lean kernel, the hand-written mirror LiquerModel/Paths.lean of ResourceQuerySegment._query_to_absolute/to_absolute and "
+        "Query.to_absolute (tied by correspondence only), CPython posixpath as oracle. Directory argument assumed to consist of plain names."),
+ ),
 }
